@@ -12,6 +12,7 @@
 #include <cmath>
 #include <string>
 #include <vector>
+#include <deque>
 #include <unistd.h>
 #include <fcntl.h>
 #include <sys/mman.h>
@@ -60,7 +61,7 @@ struct Ctx {
   xrl_error *slot = NULL;
   xrl_error *sentinel = NULL;
   std::string result;
-  std::vector<std::string> keep;      // string argument storage
+  std::deque<std::string> keep;       // string argument storage (deque: element addresses stay valid)
   std::vector<Crystal_Struct *> builtin_crystals;
   std::vector<Crystal_Struct> user_crystals;
   std::vector<std::vector<Crystal_Atom>> user_atoms;
